@@ -3,7 +3,26 @@ from checks import rolling_common
 
 
 def run(ctx):
+    import os
+    import vf
     rep, cases = rolling_common.run(ctx, "C13")
+    # direction B: real clock, no hooks; TLC evaluates the history laws on every recorded run
+    thorough = ctx.tier == "thorough"
+    dump = os.path.join(ctx.scratch, "rollruns.ndjson")
+    res = ctx.vh(["rollreal", "--dump", dump, "--runs", "12" if thorough else "6", "--seconds", "12" if thorough else "4"],
+                 timeout=600)
+    rep.absorb(res, traces=False)
+    rep.traces += int(res.get("traces", 0))
+    nruns = sum(1 for _ in open(dump))
+    if nruns == 0:
+        raise vf.Infra("no real-time rolling run was recorded")
+    tr = ctx.tlc("RollingHistory", "RollingHistory", workers=1, timeout=900, env={"VERIF_RUNS": dump}, expect_violation=True)
+    if tr.violation:
+        bad = tr.emitted[0] if tr.emitted else {}
+        rep.violations.append({"key": "realtime-history-rejected", "what": "TLC rejected a recorded real-time run: %s" % bad, "case": bad})
+    elif tr.distinct != nruns + 1:
+        raise vf.Infra("RollingHistory consumed %d of %d runs" % (tr.distinct - 1, nruns))
+    rep.extra["realtime_runs_validated_by_tlc"] = nruns
     rep.exhaustive = True
     rep.rule = ("Rolling.tla (one action per segment between instrumentation points of Write/rotate; clock ticks, "
                 "directory outages, Stop/Start) model-checked for 2 writers with ExactlyOnce, NothingLost, "
@@ -12,7 +31,9 @@ def run(ctx):
                 "file, rotation contention, failed creation, three files, restart) and %d simulated behaviours (<= 120 "
                 "steps, 2 writers, 6 writes, outages, restart) replayed on a real RollingFileAppender under a virtual clock "
                 "with writer goroutines parked at every instrumentation point; after every step directory listing, file "
-                "contents, /proc/self/fd, published handles and marker are compared.  Non-trivial = distinct step sequences."
+                "contents, /proc/self/fd, published handles and marker are compared.  Direction B: real-clock runs (1-2 s intervals, 1-16 "
+                "writers, idle gaps, a stop/start cycle, lines 1 B - 64 KiB) recorded without hooks; TLC evaluates ExactlyOnce, "
+                "NotBeforeName, SequentialFresh and NamesWithinRun on each (RollingHistory.tla).  Non-trivial = distinct step sequences."
                 % rep.extra.get("simulated_behaviours", 0))
     rep.assumptions = ["TLC/SANY", "Go toolchain", "verif hooks: virtual clock + park points in Write/rotate",
                        "O_APPEND and rename semantics of the kernel", "Stop/Start only with no write in progress (premise)"]
